@@ -174,4 +174,13 @@ theorem coopRun_single (S A : List Nat) (alpha gamma : Rat) (hk : A ≠ []) :
     rw [bm_get_full S A b s a h1 h2 ht hat, bm_get_full S A b s1 a1 h3 h4 ht hat]
     rfl
 
+/-- the normaliser of a single all-agents basis (as the constructor intends it) is 1 for every agent -/
+theorem coopNorm_single (k : Nat) (b : BM) (hat : b.atag = List.range k) : coopNorm k [b] = List.replicate k 1 := by
+  unfold coopNorm
+  apply List.ext_getElem
+  · simp
+  · intro i h1 h2
+    simp only [List.length_map, List.length_range] at h1
+    simp [hat, h1]
+
 end AITB.Factored
